@@ -1,15 +1,25 @@
-(* Stage B of C01_back: straight-line programs over top-level variables.  A program is a list of top-level
-   statements - declarations `x := e`, assignments `x = e`, expression statements - whose expressions are the
-   scalar expressions of ScalarFrag.v (now with variable references).  The k-th declaration declares variable k;
-   [names] gives the variables their (distinct, non-empty) identifiers.  As for the expression fragment: the code
-   the compiler model emits and the source-level result are pure functions; proofs/VarProgProofs.v shows that they
-   ARE what Compiler.compile_program, Sem.run and VM.run compute. *)
+(* Stages B and C of C01_back: programs over top-level variables.  A program is a list of top-level statements -
+   declarations `x := e`, assignments `x = e`, expression statements, and conditionals
+   `if c { simple; ... } else { simple; ... }` whose branches are lists of assignments and expression statements -
+   with the scalar expressions of ScalarFrag.v (which may mention the variables declared so far).  The k-th
+   declaration declares variable k; [names] gives the variables their (distinct, non-empty) identifiers.  As for
+   the expression fragment: the code the compiler model emits and the source-level result are pure functions;
+   proofs/Var*Proofs.v show that they ARE what Compiler.compile_program, Sem.run and VM.run compute. *)
 From Coq Require Import List ZArith NArith Bool Arith.
 Require Import RV.model.Syntax RV.model.Compiler RV.model.ScalarFrag.
 Import ListNotations.
 Local Open Scope nat_scope.
 
-Inductive stmt := SDecl (e : sexp) | SSet (i : nat) (e : sexp) | SExpr (e : sexp).
+(* what a branch of a conditional may contain *)
+Inductive simple := MSet (i : nat) (e : sexp) | MExpr (e : sexp).
+Inductive stmt := SDecl (e : sexp) | SSet (i : nat) (e : sexp) | SExpr (e : sexp)
+                | SIf (c : sexp) (t e : list simple).
+
+Definition embed_simple (names : list (list N)) (m : simple) : node :=
+  match m with
+  | MSet i e => NAssign (nth i names []) [61%N] (embed names e)
+  | MExpr e => embed names e
+  end.
 
 (* k = number of variables declared so far *)
 Fixpoint embed_stmts (names : list (list N)) (k : nat) (l : list stmt) : list node :=
@@ -18,7 +28,12 @@ Fixpoint embed_stmts (names : list (list N)) (k : nat) (l : list stmt) : list no
   | SDecl e :: r => NVar (nth k names []) (embed names e) :: embed_stmts names (S k) r
   | SSet i e :: r => NAssign (nth i names []) [61%N] (embed names e) :: embed_stmts names k r
   | SExpr e :: r => embed names e :: embed_stmts names k r
+  | SIf c t e :: r => NIf (embed names c) (map (embed_simple names) t) (Some (map (embed_simple names) e))
+                      :: embed_stmts names k r
   end.
+
+Definition wf_simple (k : nat) (m : simple) : bool :=
+  match m with MSet i e => Nat.ltb i k && wf k e | MExpr e => wf k e end.
 
 Fixpoint wf_stmts (k : nat) (l : list stmt) : bool :=
   match l with
@@ -26,27 +41,83 @@ Fixpoint wf_stmts (k : nat) (l : list stmt) : bool :=
   | SDecl e :: r => wf k e && wf_stmts (S k) r
   | SSet i e :: r => Nat.ltb i k && wf k e && wf_stmts k r
   | SExpr e :: r => wf k e && wf_stmts k r
+  | SIf c t e :: r => wf k c && forallb (wf_simple k) t && forallb (wf_simple k) e && wf_stmts k r
   end.
 
 Fixpoint ndecls (l : list stmt) : nat :=
   match l with [] => 0 | SDecl _ :: r => S (ndecls r) | _ :: r => ndecls r end.
 
-Definition stmt_exp (s : stmt) : sexp := match s with SDecl e | SSet _ e | SExpr e => e end.
-Definition max_height (l : list stmt) : nat := fold_right (fun s m => Nat.max (height (stmt_exp s)) m) 0 l.
-Definition max_need (l : list stmt) : nat := fold_right (fun s m => Nat.max (need (stmt_exp s)) m) 0 l.
+(* fuel the compiler and the reference semantics need, operand-stack slots the VM needs *)
+Definition simple_exp (m : simple) : sexp := match m with MSet _ e | MExpr e => e end.
+Definition simples_height (l : list simple) : nat := fold_right (fun m a => Nat.max (height (simple_exp m)) a) 0 l.
+Definition simples_need (l : list simple) : nat := fold_right (fun m a => Nat.max (need (simple_exp m)) a) 1 l.
+Definition stmt_height (s : stmt) : nat :=
+  match s with
+  | SDecl e | SSet _ e | SExpr e => height e
+  | SIf c t e => S (Nat.max (height c) (S (Nat.max (simples_height t) (simples_height e))))
+  end.
+Definition stmt_need (s : stmt) : nat :=
+  match s with
+  | SDecl e | SSet _ e | SExpr e => need e
+  | SIf c t e => Nat.max (need c) (Nat.max (simples_need t) (simples_need e))
+  end.
+Definition max_height (l : list stmt) : nat := fold_right (fun s m => Nat.max (stmt_height s) m) 0 l.
+Definition max_need (l : list stmt) : nat := fold_right (fun s m => Nat.max (stmt_need s) m) 0 l.
 
 Fixpoint set_nth (i : nat) (v : sval) (l : list sval) : list sval :=
   match l, i with [], _ => [] | _ :: r, O => v :: r | x :: r, S j => x :: set_nth j v r end.
 
-(* the source-level result of a program: the value of the last statement if it is an expression, else nil; or the
-   class of the first error *)
+(* ---------------------------------------------------------------- source-level meaning *)
+(* a statement: the new values of the variables and the statement's value, or the class of the error *)
+Definition run_simple (rho : list sval) (m : simple) : (list sval * sval) + serr :=
+  match m with
+  | MSet i e => match sev rho e with inl v => inl (set_nth i v rho, VNil) | inr x => inr x end
+  | MExpr e => match sev rho e with inl v => inl (rho, v) | inr x => inr x end
+  end.
+(* a block: the value of its last statement if that is an expression, else nil *)
+Fixpoint run_simples (rho : list sval) (l : list simple) (last : sval) : (list sval * sval) + serr :=
+  match l with
+  | [] => inl (rho, last)
+  | m :: r => match run_simple rho m with inl (rho', v) => run_simples rho' r v | inr x => inr x end
+  end.
+Definition run_stmt (rho : list sval) (s : stmt) : (list sval * sval) + serr :=
+  match s with
+  | SDecl e => match sev rho e with inl v => inl (rho ++ [v], VNil) | inr x => inr x end
+  | SSet i e => match sev rho e with inl v => inl (set_nth i v rho, VNil) | inr x => inr x end
+  | SExpr e => match sev rho e with inl v => inl (rho, v) | inr x => inr x end
+  | SIf c t e => match sev rho c with
+                 | inl vc => run_simples rho (if struthy vc then t else e) VNil
+                 | inr x => inr x
+                 end
+  end.
+(* a program: the value of the last statement if it is an expression, else nil; or the class of the first error *)
 Fixpoint run_stmts (rho : list sval) (l : list stmt) (last : sval) : sval + serr :=
   match l with
   | [] => inl last
-  | SDecl e :: r => match sev rho e with inl v => run_stmts (rho ++ [v]) r VNil | inr x => inr x end
-  | SSet i e :: r => match sev rho e with inl v => run_stmts (set_nth i v rho) r VNil | inr x => inr x end
-  | SExpr e :: r => match sev rho e with inl v => run_stmts rho r v | inr x => inr x end
+  | s :: r => match run_stmt rho s with inl (rho', v) => run_stmts rho' r v | inr x => inr x end
   end.
+
+(* ---------------------------------------------------------------- emitted code *)
+Definition simple_code (base : nat) (m : simple) : list N * list konst :=
+  match m with
+  | MSet i e => let '(c, ks) := cexp base e in (c ++ [opStoreGlobal; N.of_nat i], ks)
+  | MExpr e => cexp base e
+  end.
+Definition is_expr_simple (m : simple) : bool := match m with MExpr _ => true | _ => false end.
+(* a non-empty statement list as compileStatements lays it out: an expression statement is followed by PopTop unless
+   it is the last one; a last statement that is not an expression is followed by Nil *)
+Fixpoint simples_code (base : nat) (l : list simple) : list N * list konst :=
+  match l with
+  | [] => ([], [])
+  | [m] => let '(c, ks) := simple_code base m in (c ++ (if is_expr_simple m then [] else [opNil]), ks)
+  | m :: r =>
+      let '(c, ks) := simple_code base m in
+      let '(cr, kr) := simples_code (base + length ks) r in
+      (c ++ (if is_expr_simple m then [opPopTop] else []) ++ cr, ks ++ kr)
+  end.
+(* a block: an empty one is Nil *)
+Definition block_code (base : nat) (l : list simple) : list N * list konst :=
+  match l with [] => ([opNil], []) | _ => simples_code base l end.
 
 (* the code of one statement (without what separates it from the next), [k] variables declared, [base] constants *)
 Definition stmt_code (k base : nat) (s : stmt) : list N * list konst :=
@@ -54,11 +125,14 @@ Definition stmt_code (k base : nat) (s : stmt) : list N * list konst :=
   | SDecl e => let '(c, ks) := cexp base e in (c ++ [opStoreGlobal; N.of_nat k], ks)
   | SSet i e => let '(c, ks) := cexp base e in (c ++ [opStoreGlobal; N.of_nat i], ks)
   | SExpr e => cexp base e
+  | SIf c t e =>
+      let '(cc, kc) := cexp base c in
+      let '(ct, kt) := block_code (base + length kc) t in
+      let '(ce, ke) := block_code (base + length kc + length kt) e in
+      (cc ++ [opPopJumpForwardIfFalse; (nlenN ct + 4)%N] ++ ct ++ [opJumpForward; (nlenN ce + 2)%N] ++ ce, kc ++ kt ++ ke)
   end.
-Definition is_expr_stmt (s : stmt) : bool := match s with SExpr _ => true | _ => false end.
+Definition is_expr_stmt (s : stmt) : bool := match s with SExpr _ | SIf _ _ _ => true | _ => false end.
 
-(* the code of a non-empty statement list as compileProgram lays it out: an expression statement is followed by
-   PopTop unless it is the last one; a last statement that is not an expression is followed by Nil *)
 Fixpoint pcode (k base : nat) (l : list stmt) : list N * list konst :=
   match l with
   | [] => ([], [])
